@@ -257,6 +257,20 @@ let do_sq line =
         | K.IOk o -> f ^ " I:ok:" ^ csv_of o))
   | _ -> "badcase"
 
+(* ---- binary arithmetic coder (C12):  bc <hex data> ; p1 p2 ... ; <hex stream or -> ---- *)
+let do_bc line =
+  match split_on_semis line with
+  | ["bc"; data] :: preds :: [stream] :: _ ->
+    let data = if data = "-" then [] else bytes_of_hex data in
+    let ps = List.map ns preds in
+    let e = match K.bc_encode ps data with None -> "E:P" | Some out -> "E:" ^ (if out = [] then "-" else hex_of_bytes out) in
+    if stream = "-" then e else
+    (match K.bc_decode ps (n_of_zar (Z.of_int (List.length data))) (bytes_of_hex stream @ bytes_of_hex "a5c3f00f") with
+     | K.DOk (b, rest) -> e ^ " D:" ^ (if b = [] then "-" else hex_of_bytes b) ^ " R:" ^ hex_of_bytes rest
+     | K.DInvalid -> e ^ " D:invalid"
+     | K.DEos -> e ^ " D:eos")
+  | _ -> "badcase"
+
 let dispatch line =
   match words line with
   | [] -> ""
@@ -267,6 +281,7 @@ let dispatch line =
   | "rd" :: _ -> do_rd line
   | "nm" :: args -> do_nm args
   | "sq" :: _ -> do_sq line
+  | "bc" :: _ -> do_bc line
   | k :: _ -> "unknown " ^ k
 
 let () =
